@@ -225,6 +225,39 @@ pub fn run(seed: u64, n: u64) {
             out["revealed_ok"] = json!(revealed_ok);
             let rt = guarded(|| serde_json::to_value(&pres).ok().and_then(|v| serde_json::from_value::<Pres>(v).ok()));
             out["json_roundtrip"] = match rt { Ok(Some(p2)) => vb(&p2, &global, &mats), Ok(None) => json!("PARSE-ERR"), Err(_) => json!("SERIALIZE-PANIC") };
+            // ---- JSON layer
+            if let Some(j0) = guarded(|| serde_json::to_value(&pres).ok()).ok().flatten() {
+                let mut jm: Vec<J> = Vec::new();
+                let mut unparse = 0u32;
+                for (name, m) in json_mutations(&j0) {
+                    match guarded(|| serde_json::from_value::<Pres>(m.clone()).ok()) {
+                        Err(_) => jm.push(json!([name, "PANIC"])),
+                        Ok(None) => unparse += 1,
+                        Ok(Some(p2)) => {
+                            let back = guarded(|| serde_json::to_value(&p2).ok()).ok().flatten();
+                            let faithful = back.as_ref() == Some(&m);
+                            let same = p2 == pres;
+                            // the (unused) linking proof of v1 carries an unauthenticated timestamp
+                            let mut p3 = p2.clone(); p3.linking_proof = pres.linking_proof.clone();
+                            jm.push(json!([name, faithful, same, p3 == pres, vb(&p2, &global, &mats)]));
+                        }
+                    }
+                }
+                out["json"] = json!(jm);
+                out["json_unparseable"] = json!(unparse);
+            }
+            if let Some(r0) = guarded(|| serde_json::to_value(&request).ok()).ok().flatten() {
+                let mut jr: Vec<J> = Vec::new();
+                let rt = serde_json::from_value::<RequestV1<ArCurve, W>>(r0.clone()).ok();
+                jr.push(json!(["roundtrip", true, rt.as_ref() == Some(&request)]));
+                for (name, m) in json_mutations(&r0) {
+                    if let Ok(Some(q2)) = guarded(|| serde_json::from_value::<RequestV1<ArCurve, W>>(m.clone()).ok()) {
+                        let back = guarded(|| serde_json::to_value(&q2).ok()).ok().flatten();
+                        jr.push(json!([name, back.as_ref() == Some(&m), q2 == request]));
+                    }
+                }
+                out["json_request"] = json!(jr);
+            }
             let nstm: usize = creds.iter().map(|c| c.ss().len()).sum();
             let has_identity = creds.iter().any(|c| matches!(c, Cred::Identity { .. }));
             let mut pert: Vec<J> = Vec::new();
@@ -624,6 +657,98 @@ pub fn run(seed: u64, n: u64) {
                     println!("{}", json!({"k":"anchor","name":"two_network_issuer_list_honest","i":i,"kind":c.kind(),"expect_ok":true,
                         "result": match res { Ok(PresentationVerificationResult::Verified) => "Verified".to_string(), Ok(PresentationVerificationResult::Failed(f)) => format!("Failed({:?})", f), Err(_) => "PANIC".into() }}));
                 }
+            }
+        }
+    }
+    multi(seed, (n / 4).max(2), &global, &idp, &idp_other);
+}
+
+/// Presentations with three credentials: every per-credential check of the request-anchor verification
+/// (validity period, allowed issuer, allowed type, network, cryptographic verification, statements)
+/// must fail with ONE bad credential at EACH position.
+fn multi(seed: u64, n: u64, global: &GlobalContext<ArCurve>, idp: &Idp, idp_other: &Idp) {
+    let mut r = Rng::new(seed ^ 0x6d75);
+    let mut csprng = StdRng::seed_from_u64(seed ^ 0x6d75);
+    let now = chrono::DateTime::parse_from_rfc3339("2024-02-29T12:00:00Z").unwrap().to_utc();
+    let netn = |n: Network| if n == Network::Testnet { 0 } else { 1 };
+    for i in 0..n {
+        let network = if i % 2 == 0 { Network::Testnet } else { Network::Mainnet };
+        let on = if network == Network::Testnet { Network::Mainnet } else { Network::Testnet };
+        let al = || vec![(1u8, A::N(42 + i)), (2u8, A::S("DK".into())), (3u8, A::S("19970505".into()))];
+        let sss: Vec<Vec<S1>> = vec![
+            vec![S1::Value(1, A::N(42 + i))],
+            vec![S1::Base(St::Range(3, A::S("19970505".into()), A::S("19970506".into()))), S1::Base(St::NotIn(2, vec![A::S("DE".into())]))],
+            vec![S1::Base(St::In(2, vec![A::S("DK".into()), A::S("NO".into())])), S1::Value(1, A::N(42 + i))],
+        ];
+        let kinds: Vec<bool> = (0..3).map(|j| (i + j) % 2 == 0 || (i % 3 == 0 && j == 1)).collect(); // true = identity
+        let mk_creds = |r: &mut Rng, csprng: &mut StdRng, nets: [Network; 3]| -> Vec<Cred> {
+            (0..3).map(|j| gen_cred(r, csprng, global, idp, kinds[j], true, nets[j], Some((al(), sss[j].clone())))).collect()
+        };
+        let creds = mk_creds(&mut r, &mut csprng, [network; 3]);
+        let bh = block_hash(&mut r);
+        let nonce = { let b = r.bytes(32); let mut a = [0u8; 32]; a.copy_from_slice(&b); Nonce(a) };
+        let unfilled = UnfilledContextInformation { given: vec![LabeledContextProperty::Nonce(nonce), LabeledContextProperty::ConnectionId("multi".into())], requested: vec![ContextLabel::BlockHash] };
+        let context = ContextInformation { given: unfilled.given.iter().map(|p| p.to_context_property()).collect(), requested: vec![LabeledContextProperty::BlockHash(bh).to_context_property()] };
+        let prove = |creds: &Vec<Cred>, sd: u64| -> Option<Pres> {
+            let request = RequestV1 { context: context.clone(), subject_claims: creds.iter().map(|c| c.claims()).collect() };
+            guarded(|| request.prove_with_rng(global, creds.iter().map(|c| c.inputs().borrow()).collect::<Vec<_>>().into_iter(), &mut StdRng::seed_from_u64(sd), now)).ok().and_then(|x| x.ok())
+        };
+        let pres = match prove(&creds, seed + i) { Some(p) => p, None => { println!("{}", json!({"k":"multi","name":"prove_failed","i":i,"pos":-1,"expect_ok":true,"result":"NoPresentation"})); continue; } };
+        let ips: Vec<IpIdentity> = creds.iter().map(|c| match c { Cred::Account { issuer, .. } | Cred::Identity { issuer, .. } => *issuer }).collect();
+        let kind_t = |c: &Cred| if matches!(c, Cred::Account { .. }) { IdentityCredentialType::AccountCredential } else { IdentityCredentialType::IdentityCredential };
+        let other_t = |c: &Cred| if matches!(c, Cred::Account { .. }) { IdentityCredentialType::IdentityCredential } else { IdentityCredentialType::AccountCredential };
+        let base_claims: Vec<RequestedIdentitySubjectClaims> = creds.iter().zip(ips.iter()).map(|(c, ip)| RequestedIdentitySubjectClaims {
+            statements: c.ss().iter().map(requested).collect(),
+            issuers: vec![IdentityProviderDid::new(ip.0 + 50, network), IdentityProviderDid::new(ip.0, network), IdentityProviderDid::new(ip.0, on)],
+            source: vec![kind_t(c)] }).collect();
+        let good = CredentialValidity { valid_to: YearMonth::new(2030, 5).unwrap(), created_at: YearMonth::new(2020, 5).unwrap() };
+        let expired = CredentialValidity { valid_to: YearMonth::new(2024, 1).unwrap(), created_at: YearMonth::new(2020, 5).unwrap() };
+        let not_yet = CredentialValidity { valid_to: YearMonth::new(2030, 5).unwrap(), created_at: YearMonth::new(2024, 3).unwrap() };
+        let last_month = CredentialValidity { valid_to: YearMonth::new(2024, 2).unwrap(), created_at: YearMonth::new(2024, 2).unwrap() };
+        let vctx = VerificationContext { network, validity_time: now };
+        let run = |name: &str, pos: i64, expect_ok: bool, cls: &Vec<RequestedIdentitySubjectClaims>, p: &Pres, vals: &Vec<CredentialValidity>, mats: &Vec<Mat>| {
+            let d = VerificationRequestDataBuilder::new(unfilled.clone()).subject_claims(cls.iter().cloned().map(RequestedSubjectClaims::Identity)).build();
+            let vreq = VerificationRequest { context: unfilled.clone(), subject_claims: d.subject_claims.clone(), anchor_transaction_hash: hashes::TransactionHash::new([9u8; 32]) };
+            let vra = VerificationRequestAnchorAndBlockHash { verification_request_anchor: d.to_anchor(None), block_hash: bh };
+            let mat: Vec<VerificationMaterialWithValidity> = mats.iter().zip(vals.iter()).map(|(m, v)| VerificationMaterialWithValidity { verification_material: m.clone(), validity: CredentialValidityType::ValidityPeriod(v.clone()) }).collect();
+            let res = guarded(|| verify_presentation_with_request_anchor(global, &vctx, &vreq, p, &vra, &mat));
+            let rs = match res { Ok(PresentationVerificationResult::Verified) => "Verified".to_string(), Ok(PresentationVerificationResult::Failed(f)) => format!("Failed({:?})", f), Err(_) => "PANIC".into() };
+            let ms = |v: &CredentialValidity| json!([v.created_at.lower().map(|t| t.timestamp_millis()), v.valid_to.upper().map(|t| t.timestamp_millis())]);
+            println!("{}", json!({"k":"multi","name":name,"i":i,"pos":pos,"kinds":creds.iter().map(|c| c.kind()).collect::<Vec<_>>(),"expect_ok":expect_ok,"result":rs,
+                "validities":vals.iter().map(ms).collect::<Vec<_>>(),"now":now.timestamp_millis(),"validity_case":name.starts_with("validity")}));
+        };
+        let mats: Vec<Mat> = creds.iter().map(|c| c.material().clone()).collect();
+        let goods = vec![good.clone(); 3];
+        run("validity_all_good", -1, true, &base_claims, &pres, &goods, &mats);
+        run("validity_all_last_month", -1, true, &base_claims, &pres, &vec![last_month.clone(); 3], &mats);
+        for pos in 0..3usize {
+            for (nm, bad) in [("validity_expired", &expired), ("validity_not_yet_valid", &not_yet)] {
+                let mut v = goods.clone(); v[pos] = bad.clone();
+                run(nm, pos as i64, false, &base_claims, &pres, &v, &mats);
+            }
+            let mut v = vec![expired.clone(); 3]; v[pos] = good.clone();
+            run("validity_only_this_one_good", pos as i64, false, &base_claims, &pres, &v, &mats);
+            let mut cl = base_claims.clone(); cl[pos].issuers = vec![IdentityProviderDid::new(ips[pos].0 + 50, network), IdentityProviderDid::new(ips[pos].0, on)];
+            run("issuer_not_allowed_at", pos as i64, false, &cl, &pres, &goods, &mats);
+            let mut cl = base_claims.clone(); cl[pos].source = vec![other_t(&creds[pos])];
+            run("type_not_allowed_at", pos as i64, false, &cl, &pres, &goods, &mats);
+            let mut cl = base_claims.clone(); cl[pos].statements.pop();
+            run("statements_differ_at", pos as i64, false, &cl, &pres, &goods, &mats);
+            let mut m2 = mats.clone();
+            m2[pos] = match &mats[pos] {
+                CredentialVerificationMaterial::Account(am) => { let mut a = am.clone(); for (_, c) in a.attribute_commitments.iter_mut() { *c = Commitment(c.0.plus_point(&global.on_chain_commitment_key.h)); } CredentialVerificationMaterial::Account(a) }
+                CredentialVerificationMaterial::Identity(_) => idp_other.material_identity(),
+            };
+            run("material_wrong_at", pos as i64, false, &base_claims, &pres, &goods, &m2);
+            // network: credential `pos` is presented (from the start) for the other network
+            let mut nets = [network; 3]; nets[pos] = on;
+            let creds2 = mk_creds(&mut r, &mut csprng, nets);
+            if let Some(p2) = prove(&creds2, seed + i + 500 + pos as u64) {
+                let ips2: Vec<IpIdentity> = creds2.iter().map(|c| match c { Cred::Account { issuer, .. } | Cred::Identity { issuer, .. } => *issuer }).collect();
+                let cl2: Vec<RequestedIdentitySubjectClaims> = creds2.iter().zip(ips2.iter()).map(|(c, ip)| RequestedIdentitySubjectClaims {
+                    statements: c.ss().iter().map(requested).collect(), issuers: vec![IdentityProviderDid::new(ip.0, network), IdentityProviderDid::new(ip.0, on)], source: vec![kind_t(c)] }).collect();
+                let mats2: Vec<Mat> = creds2.iter().map(|c| c.material().clone()).collect();
+                run("network_other_at", pos as i64, false, &cl2, &p2, &goods, &mats2);
             }
         }
     }
